@@ -2,7 +2,7 @@
    computation over a table regenerated from /repo. *)
 From Coq Require Import List String ZArith.
 From Helm Require Import Values.Tree Values.Merge Values.Coalesce Values.Options
-                         Values.MergeProofs Values.CoalesceProofs Gen.ValueOrder.
+                         Values.MergeProofs Values.CoalesceProofs Values.SubchartProofs Gen.ValueOrder.
 Import ListNotations.
 Local Open Scope string_scope.
 
@@ -86,3 +86,32 @@ Example C04_coalesce_precedence_nonvacuous :
   /\ lookup_path ["b"] (VMap r) = Some (VStr "keep").
 Proof. exact (conj ex_dflt_wf ex_coalesce). Qed.
 Print Assumptions C04_coalesce_precedence_nonvacuous.
+
+(* With dependencies (CoalesceValues when merge = false, MergeValues when merge = true): inside
+   the scope of a direct subchart without dependencies of its own, at every path that does not
+   start at "global" (globals flow top-down, C11): the user's value wins; else the parent
+   chart's own section for the subchart; else the subchart's default shows. *)
+Theorem C04_coalesce_subchart_precedence :
+  forall (merge : bool) (n : string) (dflt : vmap) (deps : list chart) (user : vmap) (sub : chart) (r : vmap),
+  wf (VMap dflt) -> wf (VMap (cvalues sub)) ->
+  NoDup (map cname deps) -> In sub deps -> cdeps sub = [] ->
+  coalesce merge (mkChart n dflt deps) user = Some r ->
+  forall (k : string) (p' : list string), k <> global_key ->
+  (forall x, lookup_path (cname sub :: k :: p') (VMap user) = Some x -> is_table x = false -> x <> VNull ->
+             lookup_path (cname sub :: k :: p') (VMap r) = Some x)
+  /\ (forall x, defines (cname sub :: k :: p') (VMap user) = false ->
+                lookup_path (cname sub :: k :: p') (VMap dflt) = Some x -> is_table x = false -> x <> VNull ->
+                lookup_path (cname sub :: k :: p') (VMap r) = Some x)
+  /\ (defines (cname sub :: k :: p') (VMap user) = false -> defines (cname sub :: k :: p') (VMap dflt) = false ->
+      lookup_path (cname sub :: k :: p') (VMap r) = lookup_path (k :: p') (VMap (cvalues sub))).
+Proof. exact coalesce_subchart. Qed.
+Print Assumptions C04_coalesce_subchart_precedence.
+
+Example C04_coalesce_subchart_nonvacuous :
+  wf (VMap (cvalues ex_top)) /\ wf (VMap (cvalues ex_sub)) /\ NoDup (map cname (cdeps ex_top))
+  /\ exists r, coalesce false ex_top ex_vals = Some r
+     /\ lookup_path ["sub"; "q"; "r"] (VMap r) = Some (VStr "user")
+     /\ lookup_path ["sub"; "p"] (VMap r) = Some (VNum 2%Z)
+     /\ lookup_path ["sub"; "o"] (VMap r) = Some (VStr "own").
+Proof. exact ex_subchart. Qed.
+Print Assumptions C04_coalesce_subchart_nonvacuous.
